@@ -25,7 +25,7 @@ def determine_indices_of_peaks_for_cleaned_array(values):
     diff = np.ediff1d(values, to_begin=0)
     # if negative then direction has switched
     # direction_switch = np.insert(direction_switch, 0, 0)
-    peak_indices = np.where(diff[1:] * diff[:-1] < 0)[0]
+    peak_indices = np.where(np.sign(diff[1:]) * np.sign(diff[:-1]) < 0)[0]  # signs: the product of two tiny differences underflows to zero
     peak_indices = np.insert(peak_indices, 0, 0)  # Include first and last value
     peak_indices = np.insert(peak_indices, len(peak_indices), len(values) - 1)
 
